@@ -153,6 +153,15 @@ func acceptCustom(p string) ach.FileAcceptance {
 	return ach.SkipFile
 }
 
+// acceptBelowDir: acceptCustom for paths that have a directory part, SkipFile for a bare file name.
+func acceptBelowDir(p string) ach.FileAcceptance {
+	p = filepath.ToSlash(p)
+	if path.Dir(p) == "." {
+		return ach.SkipFile
+	}
+	return acceptCustom(p)
+}
+
 // parse reads content the way MergeDir is documented to read an accepted file.
 func parse(content string, as ach.FileAcceptance, opts *ach.ValidateOpts) (f *ach.File, err error) {
 	defer func() {
